@@ -173,6 +173,10 @@ func (Fam) Gen(r *rand.Rand, i int) string {
 		if k == "uint.mul" {
 			lim = 256
 		}
+		if r.Intn(3) == 0 {
+			// ... and at the machine-word boundaries, where a "fast path" would sit
+			lim = []int{31, 32, 63, 64, 127, 128}[r.Intn(6)]
+		}
 		total := lim + 1 + r.Intn(3) - 1 // lim, lim+1, lim+2
 		la := 1 + r.Intn(total-1)
 		lb := total - la
